@@ -898,7 +898,11 @@ pub fn check_channel_clamp(rep: &mut Report, want: &str) {
         for tx in 0..16u8 {
             e.msg(0x90 | tx, &[40 + tx, 100], false);
             e.msg(0xB0 | tx, &[7, 10 + tx], false);
+            e.msg(0xE0 | tx, &[tx, 64 + tx], false);
+            e.msg(0xB0 | tx, &[64, 10 * tx], false);
             e.msg(0x80 | tx, &[40 + tx, 0], false);
+            e.msg(0x90 | tx, &[50 + tx, 1], false);
+            e.msg(0xB0 | tx, &[123, 0], false);
         }
         let h = History { channel_arg: c, ops: e.ops };
         // the reference listens on min(c,15): any deviation shows as a getter mismatch
